@@ -1762,6 +1762,25 @@ func (e *c34Env) analyse(fam, format string, s *PkgSpec, data []byte, res *c34Re
 		res.check(a.MtreeGz != nil, "no-mtree", "no .MTREE member")
 		res.check(a.MtreeHeaderOK, "mtree-header", ".MTREE does not start with the line #mtree")
 		res.check(len(a.Mtree) > 0 && a.Mtree[0].Path == "./.PKGINFO", "mtree-first-line-not-pkginfo", ".MTREE does not list ./.PKGINFO first")
+		// mtree(5): a line is a path word followed by keyword=value words, separated by blanks; nothing else
+		{
+			known := map[string]bool{"time": true, "mode": true, "size": true, "type": true, "md5digest": true, "sha256digest": true, "link": true}
+			for li, line := range strings.Split(strings.TrimSuffix(string(a.MtreeRaw), "\n"), "\n") {
+				if li == 0 && line == "#mtree" {
+					continue
+				}
+				words := strings.Split(line, " ")
+				ok := strings.HasPrefix(words[0], "./")
+				for _, w := range words[1:] {
+					k, _, has := strings.Cut(w, "=")
+					ok = ok && has && known[k]
+				}
+				if !ok {
+					res.check(false, "mtree-line-not-a-path-and-keywords", ".MTREE line %d is not a path followed by keyword=value words: %q", li+1, line)
+					break
+				}
+			}
+		}
 		if a.MtreeGz != nil {
 			mt, err := c34Gunzip(a.MtreeGz, true)
 			res.check(err == nil && bytes.Equal(mt, a.MtreeRaw), "mtree-stdlib-gzip-rejects", "compress/gzip does not read .MTREE to the end: %v", err)
